@@ -17,6 +17,13 @@ class ToolError(Exception):
     pass
 
 
+class GvCrash(ToolError):
+    """The harness process was killed (signal / abort) while running scenarios."""
+    def __init__(self, rc, stderr, args):
+        ToolError.__init__(self, "gv %s was killed (rc=%s): %s" % (" ".join(map(str, args)), rc, stderr[-600:]))
+        self.rc, self.stderr, self.gv_args = rc, stderr, [str(a) for a in args]
+
+
 def log(*a):
     print(*a, flush=True)
 
@@ -36,6 +43,8 @@ def build_harness(release=False):
 def gv(args, timeout=3600, release=False):
     p = subprocess.run([GV_RELEASE if release else GV] + [str(a) for a in args], cwd=VERIF, stdout=subprocess.PIPE,
                        stderr=subprocess.PIPE, text=True, timeout=timeout)
+    if p.returncode < 0 or p.returncode == 134 or "unsafe precondition" in p.stderr:
+        raise GvCrash(p.returncode, p.stderr, args)
     if p.returncode != 0:
         raise ToolError("gv %s failed (%d): %s" % (" ".join(map(str, args)), p.returncode, p.stderr[-2000:]))
     last = p.stdout.strip().splitlines()[-1] if p.stdout.strip() else "{}"
@@ -241,3 +250,33 @@ def write_evidence(prop, tier, seed, level, coverage, wall, violations, assumpti
     with open(tmp, "w") as f:
         json.dump(ev, f, indent=1)
     os.replace(tmp, os.path.join(evdir, prop + ".json"))
+
+
+def crashed_scenario(dirpath, prefix):
+    """Name of the scenario that was running when gv was killed: the last one begun (the index is
+    flushed at every scenario start)."""
+    last = None
+    try:
+        with open(os.path.join(dirpath, prefix + ".index")) as f:
+            for line in f:
+                parts = line.rstrip("\n").split("\t")
+                if len(parts) == 3:
+                    last = parts[2]
+    except FileNotFoundError:
+        pass
+    return last
+
+
+def file_crash(prop, scn, crash, spec):
+    h = hashlib.sha1((scn or "unknown").encode()).hexdigest()[:10]
+    d = os.path.join(OUT, "violations", prop, "crash-" + (scn or "unknown").replace("/", "_") + "-" + h)
+    os.makedirs(d, exist_ok=True)
+    with open(os.path.join(d, "stderr.txt"), "w") as f:
+        f.write(crash.stderr[-6000:])
+    with open(os.path.join(d, "scenario.json"), "w") as f:
+        json.dump(dict(property=prop, scenario=scn, crash=True, rc=crash.rc, spec=spec), f, indent=1)
+    with open(os.path.join(d, "README"), "w") as f:
+        f.write("The harness process was killed (rc=%s) while the real code executed scenario %s:\n"
+                "undefined behaviour caught by the standard library's precondition checks, or a fatal signal.\n"
+                "Replay: bin/check %s --replay %s\n" % (crash.rc, scn, prop, d))
+    return d
